@@ -84,7 +84,16 @@ ASSUMPTIONS["C13"] = [
 FAMILY["C12"] = "fam_import"
 REQUIRED_THEOREMS["C12"] = ["C12_nodes", "C12_edges", "C12_attrs", "C12_renumber", "C12_reject_dup",
                             "C12_reject_unknown", "C12_reject_self", "C12_reject_missing",
-                            "C12_geff_import", "C12_geff_reject", "C12_counterexample_unfixed"]
+                            "C12_geff_import", "C12_geff_reject", "C12_counterexample_unfixed",
+                            # R8I: the parts of the pipeline the base model left out (FtModel/ImportExt.lean, family IMX):
+                            # _preprocess_name_map (None / [] entries, legacy z/y/x keys), GEFF edge properties with their
+                            # own key map, order of the checks in build()
+                            "C12_preprocess_none_is_absent_partial", "C12_preprocess_none_is_absent_edge",
+                            "C12_wrapper_none_is_absent", "C12_legacy_axes", "C12_legacy_axes_order", "C12_legacy_axes_few",
+                            "C12_validate_seg_none", "C12_edge_props_faithful", "C12_edge_props_all_loaded",
+                            "C12_edge_map_unknown_refused", "C12_node_edge_key_collision_refused",
+                            "C12_counterexample_blank_pos_shadows_legacy", "C12_counterexample_all_blank_map",
+                            "C12_counterexample_legacy_edge_spatial"]
 TRUSTED_BASE["C12"] = [
     "pandas dtype decision is_integer_dtype(id column) enters the model as a per-table flag read from pandas by the harness",
     "pandas CSV parsing (source of a CSV case = the frame pd.read_csv yields; floats checked within 1 ulp of what was written), numpy coercion of homogeneous columns, NaN/None carrying, ast.literal_eval of '[...]' strings: opaque carriers, values are tokens (floats by repr, integral floats = ints)",
@@ -106,7 +115,22 @@ REQUIRED_THEOREMS["C14"] = ["C14_csv", "C14_geff", "C14_geff_loaded", "C14_geff_
                             "C14_export_needs_posSrc", "C14_counterexample_position_switched_off",
                             # R6H: the display-name CSV layout and its re-import
                             "C14_csv_display", "C14_csv_display_names", "C14_csv_display_layout",
-                            "C14_csv_display_needs_distinct_names", "C14_csv_display_needs_distinct_targets"]
+                            "C14_csv_display_needs_distinct_names", "C14_csv_display_needs_distinct_targets",
+                            # R8S: a saved and reloaded solution (bookkeeping rebuilt, history empty) satisfies the
+                            # invariant, shows the same observables and — up to the order inside the lookups and the
+                            # rebuilt id maxima — behaves the same in every later session
+                            "C14_reload_is_load", "C14_reload_inv", "C14_reload_same_observables",
+                            "C14_reload_step_congr", "C14_reload_bisim_partial", "C14_counterexample_reload_bisim",
+                            "C14_reload_note_what_differs", "C14_reload_note_order_needs_valid",
+                            # R8V: the importer's id validators (geff.validate.tracks) accept the ids of every reached
+                            # state, so the re-imported track / lineage ids are the written ones (no trusted flag)
+                            "C14_reached_tracklets_validate", "C14_reached_lineages_validate", "C14_inv_ids_validate",
+                            "C14_reached_ids_validate", "C14_reached_roundtrip_keeps_ids",
+                            "C14_reached_roundtrip_keeps_ids_csv", "C14_reached_roundtrip_keeps_ids_geff",
+                            "C14_validator_tracklets_spec", "C14_validator_lineages_spec", "C14_validator_acyclic_spec",
+                            "C14_validator_start_end_determined", "C14_validator_accepts_all_singletons",
+                            "C14_validator_accepts_id_through_division", "C14_validator_rejects_shared_id",
+                            "C14_validator_rejects_merged_lineages", "C14_validator_rejects_subset_export"]
 REQUIRED_THEOREMS["C15"] = ["C15_closure", "C15_closure_files", "C15_parent_closed", "C15_edges", "C15_edges_csv", "C15_seg", "C15_seg_csv",
                             "C15_after_session", "C15_after_session_csv", "C15_after_session_seg", "C15_csv_display_subset"]
 REQUIRED_THEOREMS["C16"] = ["C16_readonly", "C16_readonly_eq", "C16_counterexample_unfixed", "C16_repair_same_output"]
